@@ -43,3 +43,30 @@ Definition month_length (y m : Z) : Z :=
   end.
 Definition real_date (y m d : Z) : Prop := 1 <= y <= 9999 /\ 1 <= m <= 12 /\ 1 <= d <= month_length y m.
 Definition real_time (hh mm ss : Z) : Prop := 0 <= hh <= 23 /\ 0 <= mm <= 59 /\ 0 <= ss <= 61.
+
+(* ---------- date/time layouts: a sequence of items and literal characters *)
+Inductive ltok := LDay | LMonth | LYear4 | LYear2 | LHour | LMinute | LSecond | LPercent | LLit (c : N).
+Definition ltok_text (t : ltok) : text :=
+  match t with
+  | LDay => [68; 68] | LMonth => [77; 77] | LYear4 => [89; 89; 89; 89] | LYear2 => [89; 89]
+  | LHour => [104; 104] | LMinute => [109; 109] | LSecond => [115; 115] | LPercent => [37] | LLit c => [c]
+  end%N.
+(* the strptime directive each item stands for *)
+Definition ltok_directive (t : ltok) : text :=
+  match t with
+  | LDay => [37; 100] | LMonth => [37; 109] | LYear4 => [37; 89] | LYear2 => [37; 121]
+  | LHour => [37; 72] | LMinute => [37; 77] | LSecond => [37; 83] | LPercent => [37; 37] | LLit c => [c]
+  end%N.
+Definition layout_text (l : list ltok) : text := flat_map ltok_text l.
+Definition layout_directives (l : list ltok) : text := flat_map ltok_directive l.
+(* literal characters are none of the letters the items are made of; two year items never touch (YYYYYY is ambiguous) *)
+Definition lit_ok (c : N) : bool := forallb (fun k => negb (N.eqb k c)) [37; 68; 77; 89; 104; 109; 115]%N.
+Definition is_year (t : ltok) : bool := match t with LYear4 | LYear2 => true | _ => false end.
+Fixpoint layout_ok (l : list ltok) : bool :=
+  match l with
+  | [] => true
+  | t :: rest =>
+      (match t with LLit c => lit_ok c | _ => true end)
+      && (match rest with t2 :: _ => negb (is_year t && is_year t2) | [] => true end)
+      && layout_ok rest
+  end.
